@@ -240,6 +240,11 @@ func (m *ledgerMon) OnRestart(n *cluster.SNode) { m.scan(n) }
 
 func ledgerGen(prop string) func(rng *core.Rng, tier string) *harness.Plan {
 	return func(rng *core.Rng, tier string) *harness.Plan {
+		if prop == "C17" && rng.Chance(0.25) {
+			p := &harness.Plan{Seed: rng.Uint64()}
+			c17MemGen(rng, tier, p) // consensus operations and mint on the membership rig, see c17mem.go
+			return p
+		}
 		p := &harness.Plan{Seed: rng.Uint64(), Params: map[string]int64{}}
 		baseClusterParams(rng, p)
 		dur := time.Duration(45+rng.IntN(25)) * time.Second
@@ -283,6 +288,9 @@ func ledgerGen(prop string) func(rng *core.Rng, tier string) *harness.Plan {
 
 func ledgerExec(prop string) func(p *harness.Plan) *harness.Outcome {
 	return func(p *harness.Plan) *harness.Outcome {
+		if prop == "C17" && p.P("mem", 0) == 1 {
+			return c17MemExec(p)
+		}
 		r, err := newClusterRun(prop, p)
 		if err != nil {
 			o := harness.NewOutcome()
